@@ -13,3 +13,5 @@ From Agdb Require Export Auth Paths.
 From Agdb Require Export Collections CollValues.
 (* the whole database in the record store (C05 L3): loaded LAST; unique prefix sd_ (+ load_db) *)
 From Agdb Require Export StoredDb.
+(* the core mutations as storage programs (C05, correspondence (d)): loaded LAST; unique prefix so_ *)
+From Agdb Require Export StoredDbOps.
